@@ -99,7 +99,7 @@ def vmx_spec(draw):
     final = []
     for ln in lines:
         key = draw(recase(ln[1]))
-        final.append(["kv", key, ln[2], {"sep": draw(st.sampled_from([" = ", "=", " =", "= ", "  =  "])), "quote": draw(st.sampled_from([True, True, True, False])) or ln[2] == "",
+        final.append(["kv", key, ln[2], {"sep": draw(st.sampled_from([" = ", "=", " =", "= ", "  =  ", "\t= ", "\t=", " \t = "])), "quote": draw(st.sampled_from([True, True, True, False])) or ln[2] == "",
                                          "indent": draw(st.sampled_from(["", "", " ", "\t"])), "trail": draw(st.sampled_from(["", "", " ", "\t"]))}])
         r = draw(st.integers(0, 9))
         if r == 0:
@@ -107,7 +107,9 @@ def vmx_spec(draw):
         elif r == 1:
             final.append(["blank"])
     style = {"crlf": draw(st.booleans()), "final_newline": draw(st.booleans())}
-    return {"kind": "vmx", "lines": final, "style": style}
+    # the same dictionary as the encrypted part of an encrypted configuration: listed after unlocking, where a first attempt with a
+    # wrong passphrase may have failed before
+    return {"kind": "vmx", "lines": final, "style": style, "encrypted": draw(st.sampled_from([None, None, None, None, "direct", "retry"]))}
 
 
 def vmx_expected_disks(attr: dict) -> list[str]:
@@ -156,7 +158,8 @@ def ovf_spec(draw):
     op = draw(st.sampled_from(["", "", "ovf", "o", "env"]))
     return {"kind": "ovf", "files": files, "disks": disks, "items": items, "ovf_prefix": op,
             "attr_prefix": draw(st.sampled_from(["ovf", "ovf", "a", op or "ovf"])), "rasd_prefix": draw(st.sampled_from(["rasd", "rasd", "r", "RASD"])),
-            "redundant_ns": draw(st.booleans()), "comments": draw(st.booleans()), "sq": draw(st.booleans())}
+            "redundant_ns": draw(st.booleans()), "comments": draw(st.booleans()), "sq": draw(st.booleans()),
+            "foreign_attrs": draw(st.sampled_from([None, None, None, "before", "after"]))}
 
 
 @st.composite
@@ -203,6 +206,21 @@ def strategy_(draw, tier):
 
 def strategy(tier):
     return strategy_(tier)
+
+
+def encrypted_wrapper(text: str) -> str:
+    """An encrypted configuration (one passphrase pair, "secret") whose encrypted part is `text`."""
+    import base64
+
+    from hv.builders import vmxcrypt as bvx
+    from hv.props.c12 import VMX_SPEC as base
+
+    pair = base["pairs"][0]
+    data_key = bytes.fromhex(base["data_key"])
+    data = bvx.seal(data_key, bytes.fromhex(base["data_iv"]), text.encode(), pair["mac"])
+    keysafe = "vmware:key/list/(" + bvx.pair_text(pair, bvx.pair_fields(pair, data_key, base["data_cipher"])) + ")"
+    return (f'.encoding = "UTF-8"\ndisplayName = "vm"\nencryption.keySafe = "{keysafe}"\n'
+            f'encryption.data = "{base64.b64encode(bvx.blob(data)).decode()}"\n')
 
 
 def document(spec, prolog=""):
@@ -253,6 +271,23 @@ def check(spec) -> Outcome:
             return out
         if list(got) != exp:
             out.fail("mismatch|vmx-disks", f"disks() {list(got)} != {exp}")
+        if spec.get("encrypted") and not out.failures:
+            out.cls("vmx-encrypted-" + spec["encrypted"])
+            ve, err = lib(VMX.parse, encrypted_wrapper(text))
+            if err:
+                out.fail(err.sig("vmx-encrypted-parse"), f"VMX.parse raised {err.describe()}")
+                return out
+            if spec["encrypted"] == "retry":
+                _r, err = lib(ve.unlock_with_phrase, "Secret")
+                if not err:
+                    out.fail("accepted|vmx-encrypted-wrong-passphrase", "unlocking with a wrong passphrase did not raise")
+            _r, err = lib(ve.unlock_with_phrase, "secret")
+            if err:
+                out.fail(err.sig("vmx-encrypted-unlock"), f"unlock_with_phrase(correct passphrase) raised {err.describe()}")
+                return out
+            got_e, err = lib(lambda: list(ve.disks()))
+            if err or got_e != exp:
+                out.fail("mismatch|vmx-encrypted-disks", f"disks() after unlocking gave {got_e if not err else err.describe()}, expected {exp}")
         if spec.get("companion"):
             c = spec["companion"]
             v2, err = lib(VMX.parse, bx.vmx_text(c["lines"], c["style"]))
